@@ -138,6 +138,38 @@ def snapshot(doc):
 # ------------------------------------------------------------------------------------------------
 # import
 # ------------------------------------------------------------------------------------------------
+def import_by_route(text):
+    """The documented ways of importing a text are equivalent (the specification has one importer): which one a session takes is a
+    fixed function of the text - kp.loads, kp.load of a file holding exactly these characters, the Importer class on the string, the
+    Importer class on the file."""
+    import os
+    import tempfile
+    import kernpy as kp
+    route = sum(map(ord, text[:300])) % 6
+    if route in (2, 4):
+        d = tempfile.mkdtemp(prefix='kernpy_route_')
+        try:
+            path = os.path.join(d, 'score.krn')
+            try:
+                with open(path, 'w', encoding='utf-8', newline='') as f:
+                    f.write(text)
+            except UnicodeEncodeError:
+                return kp.loads(text)
+            if route == 2:
+                return kp.load(path)
+            imp = kp.Importer()
+            doc = imp.import_file(path)
+            return doc, imp.errors
+        finally:
+            import shutil
+            shutil.rmtree(d, ignore_errors=True)
+    if route == 3:
+        imp = kp.Importer()
+        doc = imp.import_string(text)
+        return doc, imp.errors
+    return kp.loads(text)
+
+
 def record_import(lines, eol='\n', final_eol=True):
     """Returns (events, doc or None).  events: the line events with `obs`, followed by an 'end' event."""
     import kernpy as kp
@@ -157,7 +189,7 @@ def record_import(lines, eol='\n', final_eol=True):
         prefix = lines
     text = render(prefix, eol, final_eol)
     try:
-        doc, errors = kp.loads(text)
+        doc, errors = import_by_route(text)
     except Exception as ex:  # noqa  well-formed input must import: logged as an observation, judged by the specification
         return [{'ev': 'import_failed', 'exc': type(ex).__name__, 'msg': str(ex)[:200]}], None, text
     pos = positions(doc)
